@@ -1048,6 +1048,54 @@ func h1CorrectableStream(n, repliers int) error {
 	return nil
 }
 
+// a streaming call under back-pressure (C08): its quorum function is slow, the node streams faster;
+// the node's receiver is waiting to hand over the next update when the caller's context ends. The
+// call must still complete: whatever it does before completing must not need anything the blocked
+// receiver holds. (The hand-over itself blocking is known finding D8; the call's completion is not.)
+func h1StreamCancelUnderBackpressure() error {
+	for attempt := 0; attempt < 12; attempt++ {
+		nt := h1NewNet(1)
+		ctx, cancel := context.WithCancel(context.Background())
+		gate := make(chan struct{}, 16)
+		inQF := make(chan struct{}, 16)
+		corr := nt.cfg.CorrectableCall(ctx, CorrectableCallData{Message: &mock.Request{Val: "bp"}, Method: h1Method, ServerStream: true,
+			QuorumFunction: func(_ protoreflect.ProtoMessage, r map[uint32]protoreflect.ProtoMessage) (protoreflect.ProtoMessage, int, bool) {
+				inQF <- struct{}{}
+				<-gate
+				return &mock.Response{}, 1, false
+			}})
+		r, ok := nt.take(0)
+		if !ok {
+			return fmt.Errorf("C03/C06: no request was queued")
+		}
+		id := r.msg.Metadata.MessageID
+		route := func() {
+			go nt.chans[0].routeResponse(id, response{nid: nt.cfg[0].id, msg: &mock.Response{Val: "update"}})
+		}
+		route() // update 1: taken by the call, which is now inside its quorum function
+		select {
+		case <-inQF:
+		case <-time.After(3 * time.Second):
+			return fmt.Errorf("C11: the first stream update was never given to the quorum function")
+		}
+		route() // update 2 fills the reply channel
+		time.Sleep(time.Millisecond)
+		route() // update 3: the receiver waits to hand it over
+		time.Sleep(time.Millisecond)
+		cancel()
+		for k := 0; k < 16; k++ {
+			gate <- struct{}{} // the quorum function is fast from now on
+		}
+		select {
+		case <-corr.Done():
+		case <-time.After(3 * time.Second):
+			return fmt.Errorf("C08: a streaming call did not complete within 3 s after its context ended while its node's receiver was waiting to hand over a stream update (attempt %d): something the call does before completing needs what that receiver holds", attempt+1)
+		}
+		nt.cancel()
+	}
+	return nil
+}
+
 func TestGvcReplay(t *testing.T) {
 	want := os.Getenv("GVC_H1")
 	run := func(name string) bool { return want == "" || strings.Contains(","+want+",", ","+name+",") }
@@ -1110,6 +1158,12 @@ func TestGvcReplay(t *testing.T) {
 					t.Fatalf("GVC-REPLAY: CorrectableCall (server stream) violates its specification.\n  scenario: %d nodes, the first %d stream two updates each, the quorum function completes the call on the last one\n  %v", n, k, err)
 				}
 			}
+		}
+	}
+	if run("CorrectableCall") {
+		count++
+		if err := h1StreamCancelUnderBackpressure(); err != nil {
+			t.Fatalf("GVC-REPLAY: CorrectableCall (server stream) violates its specification.\n  scenario: one node streams three updates while the quorum function is inside its first call; then the caller's context ends and the quorum function becomes fast\n  %v", err)
 		}
 	}
 	if run("NodeCalls") {
